@@ -147,6 +147,17 @@ func bindingType(p string, t Type, lookup *TypeLookup) (Type, error) {
 	case *TypedMapType:
 		r, err := bindingType(p, t.Elem, lookup)
 		if r != nil {
+			if r.TypeId().MapDim != 0 {
+				// A map of the maps which the path leads to in each
+				// entry is not a type.
+				if err == nil {
+					err = &bindingError{
+						Msg: "the path " + p + " through " +
+							t.TypeId().str() + " gives a map of maps",
+					}
+				}
+				return nil, err
+			}
 			return lookup.GetMap(r), err
 		}
 		return r, err
